@@ -132,6 +132,11 @@ async def settle() -> bool:
 def run_in_fresh_loop(coro_fn: Any) -> Any:
     """Runs `await coro_fn()` in a fresh loop with stdout/stderr captured; returns (result, stdout, stderr, error)."""
     quiet_logging()
+    import warnings
+    # a warning the library issues is printed on the server's stderr by default: it must be seen (C18); RuntimeWarnings about
+    # never-awaited coroutines of the harness's own tear-down stay ignored
+    warnings.filterwarnings("always", category=UserWarning)
+    warnings.filterwarnings("always", category=DeprecationWarning, module=r"asyncio_taskpool")
     for name in ("asyncio_taskpool.control.parser", "asyncio_taskpool.control.session", "asyncio_taskpool.control.server", "asyncio_taskpool.pool"):
         lg = logging.getLogger(name)
         lg.handlers[:] = []
